@@ -439,11 +439,24 @@ func (e *Exec) mapFind(m *Map, k Value) *mapEntry {
 		return nil
 	}
 	if hk, ok := hashKey(k); ok {
-		return m.m[hk]
+		if ent := m.m[hk]; ent != nil {
+			return ent
+		}
+		for _, ent := range m.sym {
+			if e.decide(e.equals(k, ent.k)) {
+				return ent
+			}
+		}
+		return nil
 	}
 	// symbolic key: fork over candidates
 	for _, kk := range m.sortedKeys() {
 		ent := m.m[kk]
+		if e.decide(e.equals(k, ent.k)) {
+			return ent
+		}
+	}
+	for _, ent := range m.sym {
 		if e.decide(e.equals(k, ent.k)) {
 			return ent
 		}
@@ -458,7 +471,9 @@ func (e *Exec) mapSet(m *Map, k, v Value) {
 	}
 	hk, ok := hashKey(k)
 	if !ok {
-		e.cut("symbolic-map-insert")
+		// symbolic key, decided to differ from every existing key on this path
+		m.sym = append(m.sym, &mapEntry{k: copyVal(k), v: copyVal(v)})
+		return
 	}
 	m.m[hk] = &mapEntry{k: copyVal(k), v: copyVal(v)}
 }
@@ -514,7 +529,7 @@ type iter interface{ next(e *Exec) Value }
 type mapIter struct {
 	m    *Map
 	keys []string
-	i    int
+	i, j int
 }
 
 func (it *mapIter) next(e *Exec) Value {
@@ -522,6 +537,13 @@ func (it *mapIter) next(e *Exec) Value {
 		ent := it.m.m[it.keys[it.i]]
 		it.i++
 		if ent != nil {
+			return Tuple{tTrue, copyVal(ent.k), copyVal(ent.v)}
+		}
+	}
+	if it.m != nil {
+		for it.j < len(it.m.sym) {
+			ent := it.m.sym[it.j]
+			it.j++
 			return Tuple{tTrue, copyVal(ent.k), copyVal(ent.v)}
 		}
 	}
@@ -568,7 +590,7 @@ func (e *Exec) builtin(b *ssa.Builtin, args []Value) Value {
 			if x == nil {
 				return Const(64, 0)
 			}
-			return Const(64, uint64(len(x.m)))
+			return Const(64, uint64(x.Len()))
 		case Array:
 			return Const(64, uint64(len(x)))
 		case Ptr:
@@ -629,9 +651,20 @@ func (e *Exec) builtin(b *ssa.Builtin, args []Value) Value {
 		return Const(64, uint64(n))
 	case "delete":
 		m := args[0].(*Map)
+		if m == nil {
+			return nil
+		}
 		if ent := e.mapFind(m, args[1]); ent != nil {
-			hk, _ := hashKey(ent.k)
-			delete(m.m, hk)
+			if hk, ok := hashKey(ent.k); ok {
+				delete(m.m, hk)
+			} else {
+				for i, x := range m.sym {
+					if x == ent {
+						m.sym = append(m.sym[:i:i], m.sym[i+1:]...)
+						break
+					}
+				}
+			}
 		}
 		return nil
 	case "panic":
